@@ -313,6 +313,7 @@ func (engine) Body(r *simdrv.Run) {
 			switch r.Cfg(12) {
 			case 0, 1, 2:
 				in.Kind = "end"
+				in.Code = r.Cfg(4) // 0,1: End(); 2: End(WithStackTrace(true)); 3: End(WithTimestamp(t))
 			case 3, 4:
 				in.Kind = "setattrs"
 				k := 2 + r.Cfg(2)
@@ -399,7 +400,14 @@ func (engine) Body(r *simdrv.Run) {
 				switch in.Kind {
 				case "end":
 					w.curEnd[name] = &out
-					sp.End()
+					switch in.Code {
+					case 2:
+						sp.End(trace.WithStackTrace(true))
+					case 3:
+						sp.End(trace.WithTimestamp(time.Date(2001, 2, 3, 4, 5, 6, 0, time.UTC)))
+					default:
+						sp.End()
+					}
 					delete(w.curEnd, name)
 				case "setattrs":
 					var kvs []attribute.KeyValue
